@@ -23,11 +23,18 @@ Proof.
 Qed.
 
 Lemma abnormal_exit_eq st : abnormal_exit st = abnormal st.
-Proof. unfold abnormal_exit, abnormal. rewrite WIFSIGNALED_eq, WEXITSTATUS_eq. reflexivity. Qed.
+Proof.
+  unfold abnormal_exit, classify, desc_expected, abnormal.
+  cbn [d_chain d_else pick eval_test]. rewrite WIFSIGNALED_eq, WEXITSTATUS_eq.
+  destruct (signaled st), (exit_code st =? 0); reflexivity.
+Qed.
 
 Lemma exit_log_eq st : exit_log st = expected_log st.
 Proof.
-  unfold exit_log, expected_log. rewrite WIFSIGNALED_eq, WEXITSTATUS_eq, WTERMSIG_eq. reflexivity.
+  unfold exit_log, classify, desc_expected, expected_log.
+  cbn [d_chain d_else pick eval_test]. rewrite WIFSIGNALED_eq, WEXITSTATUS_eq.
+  destruct (signaled st), (exit_code st =? 0); cbn [negb action_log];
+    rewrite ?WTERMSIG_eq, ?WEXITSTATUS_eq; reflexivity.
 Qed.
 
 Lemma logkind_eqb_refl k : logkind_eqb k k = true.
